@@ -8,7 +8,7 @@ import time
 
 import z3
 
-TIMEOUT_MS = int(os.environ.get("PVC_TIMEOUT_MS", "10000"))
+TIMEOUT_MS = int(os.environ.get("PVC_TIMEOUT_MS", "20000"))
 
 
 class Result:
@@ -27,7 +27,7 @@ class Result:
 _feas_cache = {}
 
 
-def feasible(assumptions, timeout_ms=2000):
+def feasible(assumptions, timeout_ms=4000):
     """Quick satisfiability test used for path pruning.  'unknown' counts as feasible."""
     s = z3.Solver()
     s.set("timeout", timeout_ms)
